@@ -461,6 +461,16 @@ pub fn gen_pair(r: &mut Rng, g: &PairGen) -> Vec<Tree> {
                 sides[0].nout += 3;
                 ops.push(op_status(sides[0].ep));
             }
+        } else if let Some(c) = sides[0].send.iter().find(|c| c.ty == 0).cloned() {
+            // the same on an unreliable channel, enough of them to fill a packet to the brim while the packet
+            // sequence number takes 4 or 8 bytes
+            let len = r.range(0, 6) as usize;
+            for _ in 0..r.range(300, 1400) {
+                let m = pl.make(r, len);
+                ops.push(op_send(sides[0].ep, c.id, &m));
+            }
+            ops.push(op_flush(sides[0].ep));
+            sides[0].nout += 2;
         }
     }
     else if r.chance(1, 10) {
